@@ -1,5 +1,5 @@
 /*VERIF
-{ "tu": "src/apply.c", "enforce": "dispatch_apply_f", "props": ["C10", "C04", "C18", "C06"], "seq": true, "timeout": 300,
+{ "tu": "src/apply.c", "enforce": "dispatch_apply_f", "props": ["C10", "C04", "C18", "C06", "C03"], "seq": true, "timeout": 300,
   "assumes": ["_dispatch_qos_max_parallelism returns a count >= 1 (number of active CPUs; kernel)",
               "DISPATCH_APPLY_AUTO is resolved by a stub (root-queue lookup: C18 contract of the global queue table)"],
   "stub_note": "dispatch_sync_f (own contracts: C02/C05 sync path), _dispatch_apply_f (helper submission), _dispatch_thread_context_find, _dispatch_queue_get_current, _dispatch_continuation_alloc, _dispatch_qos_max_parallelism: logging / ghost stubs" }
